@@ -765,7 +765,7 @@ spif_linked_list_insert_at(spif_linked_list_t self, spif_obj_t obj, spif_listidx
         /* Negative indexes go backward from the end of the list. */
         idx += self->len;
     }
-    REQUIRE_RVAL((idx + 1) >= 0, FALSE);
+    REQUIRE_RVAL(idx >= 0, FALSE);
 
     if (idx == 0 || SPIF_LINKED_LIST_ITEM_ISNULL(self->head)) {
         return spif_linked_list_prepend(self, obj);
